@@ -1,4 +1,5 @@
 """C10 - validation results never depend on what the schema object processed before."""
+import copy
 import io
 import sys
 
@@ -119,7 +120,25 @@ def build_pool(fam, rng):
                 r = D.identity_fault(doc, fam, idk, rng)
                 if r:
                     pool.append((idk, D.render_doc(r[0], fam, prefixes=prefixes), r[0]))
-    return pool[:16]
+    pool = pool[:16]
+    if fam == 'shop':
+        # one undeclared tag under the lax wildcard in the forms the wildcard treats differently (with and without
+        # xsi:type, nilled): whatever a schema object keeps about such a tag is shared by these documents
+        doc = D.GENERATORS[fam](rng)
+        while not any(c.name == 'order' for c in doc.children):
+            doc = D.GENERATORS[fam](rng)
+        prefixes = D.default_prefixes(fam, rng)
+        order = [c for c in doc.children if c.name == 'order'][-1]
+        order.children = [c for c in order.children if not c.meta.get('wild')]
+        for name, attrs, text in (('wild_plain', [], 'v'), ('wild_typed', [(D.XSI, 'type', 'xs:int')], '5'),
+                                  ('wild_nil', [(D.XSI, 'nil', 'true')], None),
+                                  ('wild_typed_nil', [(D.XSI, 'type', 'xs:int'), (D.XSI, 'nil', 'true')], None),
+                                  ('wild_typed_bad', [(D.XSI, 'type', 'xs:int')], 'x')):
+            d2 = copy.deepcopy(doc)
+            o2 = [c for c in d2.children if c.name == 'order'][-1]
+            o2.children.append(D.N(D.EXT, 'probe', list(attrs), text=text, meta={'wild': True}))
+            pool.append((name, D.render_doc(d2, fam, prefixes=prefixes), d2))
+    return pool
 
 
 OPS = ('is_valid', 'iter_errors', 'validate', 'decode_strict', 'decode_lax', 'decode_skip', 'to_objects', 'encode',
